@@ -1,8 +1,192 @@
 import SodiumModel.Model.Fault
 /-
   Helper lemmas for C20 (allocation failure). Put all lemmas in namespace Sodium.FaultP.
+
+  Method: each straight-line program is shown equal to an explicit, oracle-free "outcome" function of
+  the Boolean answers `ok n, ok (n+1), …` it consults (`ctxOut`, `hashOut`, `verifyOut`, …); the
+  properties of the outcome functions are then finite statements over `Bool`s closed by `decide`.
 -/
-open Sodium Sodium.Model
+open Sodium Sodium.Model Sodium.Model.Fault
 namespace Sodium.FaultP
+
+/-- explicit outcome of `argon2Ctx` started at request `n`, as a function of the three answers -/
+def ctxOut (b0 b1 b2 : Bool) (n : Nat) (evs : List Ev) : Bool × St :=
+  if b0 then
+    if b1 then
+      if b2 then
+        (true, ⟨n+3, .release .malloc (n+1) :: .release .mmap (n+2) :: .release .malloc n ::
+                .alloc .mmap (n+2) :: .alloc .malloc (n+1) :: .alloc .malloc n :: evs⟩)
+      else
+        (false, ⟨n+3, .release .malloc n :: .release .malloc (n+1) ::
+                .failed .mmap (n+2) :: .alloc .malloc (n+1) :: .alloc .malloc n :: evs⟩)
+    else (false, ⟨n+2, .release .malloc n :: .failed .malloc (n+1) :: .alloc .malloc n :: evs⟩)
+  else (false, ⟨n+1, .failed .malloc n :: evs⟩)
+
+theorem argon2Ctx_eq (ok : Nat → Bool) (n : Nat) (evs : List Ev) :
+    argon2Ctx ok ⟨n, evs⟩ = ctxOut (ok n) (ok (n+1)) (ok (n+2)) n evs := by
+  cases h0 : ok n <;> cases h1 : ok (n+1) <;> cases h2 : ok (n+2) <;>
+    simp [ctxOut, argon2Ctx, request, release, bind, pure, StateT.bind, StateT.pure, h0, h1, h2]
+
+/-- explicit outcome of `argon2Hash` started at request `n` -/
+def hashOut (b0 b1 b2 b3 : Bool) (n : Nat) (evs : List Ev) : Bool × St :=
+  if b0 then
+    let r := ctxOut b1 b2 b3 (n+1) (.alloc .malloc n :: evs)
+    (r.1, ⟨r.2.next, .release .malloc n :: r.2.evs⟩)
+  else (false, ⟨n+1, .failed .malloc n :: evs⟩)
+
+theorem argon2Hash_eq (ok : Nat → Bool) (n : Nat) (evs : List Ev) :
+    argon2Hash ok ⟨n, evs⟩ = hashOut (ok n) (ok (n+1)) (ok (n+2)) (ok (n+3)) n evs := by
+  cases h0 : ok n <;>
+    simp [hashOut, argon2Hash, argon2Ctx_eq, request, release, bind, pure, StateT.bind, StateT.pure, h0]
+
+/-- explicit outcome of `argon2Verify` from the initial state -/
+def verifyOut (b0 b1 b2 b3 b4 b5 b6 b7 d m : Bool) : Int × St :=
+  let e0 : Ev := if b0 then .alloc .malloc 0 else .failed .malloc 0
+  let e1 : Ev := if b1 then .alloc .malloc 1 else .failed .malloc 1
+  let e2 : Ev := if b2 then .alloc .malloc 2 else .failed .malloc 2
+  let r0 : List Ev := if b0 then [.release .malloc 0] else []
+  let r1 : List Ev := if b1 then [.release .malloc 1] else []
+  let r2 : List Ev := if b2 then [.release .malloc 2] else []
+  if b0 && b1 && b2 then
+    if b3 then
+      if d then
+        let r := hashOut b4 b5 b6 b7 4 [.alloc .malloc 3, e2, e1, e0]
+        (if r.1 && m then 0 else -1,
+          ⟨r.2.next, .release .malloc 2 :: .release .malloc 3 :: .release .malloc 1 :: .release .malloc 0 :: r.2.evs⟩)
+      else
+        (-1, ⟨4, [.release .malloc 3, .release .malloc 2, .release .malloc 1, .release .malloc 0,
+                  .alloc .malloc 3, e2, e1, e0]⟩)
+    else (-1, ⟨4, [.release .malloc 2, .release .malloc 1, .release .malloc 0, .failed .malloc 3, e2, e1, e0]⟩)
+  else (-1, ⟨3, r2 ++ r1 ++ r0 ++ [e2, e1, e0]⟩)
+
+theorem argon2Verify_eq (ok : Nat → Bool) (d m : Bool) :
+    argon2Verify ok d m {} =
+      verifyOut (ok 0) (ok 1) (ok 2) (ok 3) (ok 4) (ok 5) (ok 6) (ok 7) d m := by
+  cases h0 : ok 0 <;> cases h1 : ok 1 <;> cases h2 : ok 2 <;> cases h3 : ok 3 <;> cases d <;>
+    simp [verifyOut, argon2Verify, argon2Hash_eq, request, release, bind, pure, StateT.bind, StateT.pure,
+      h0, h1, h2, h3]
+
+
+
+def Good (rc : Int) (evs : List Ev) : Prop :=
+  (anyFailed evs = true → rc = -1) ∧ live evs = [] ∧ badRelease evs = false
+
+instance (rc : Int) (evs : List Ev) : Decidable (Good rc evs) := by unfold Good; infer_instance
+
+theorem verifyOut_good : ∀ b0 b1 b2 b3 b4 b5 b6 b7 d m : Bool,
+    Good (verifyOut b0 b1 b2 b3 b4 b5 b6 b7 d m).1 (verifyOut b0 b1 b2 b3 b4 b5 b6 b7 d m).2.evs.reverse := by
+  decide
+
+theorem verifyOut_rc : ∀ b0 b1 b2 b3 b4 b5 b6 b7 d m : Bool,
+    decide ((verifyOut b0 b1 b2 b3 b4 b5 b6 b7 d m).1 = 0) =
+      (d && m && b0 && b1 && b2 && b3 && b4 && b5 && b6 && b7) := by
+  decide
+
+/-! ### pwhash, needsRehash, scrypt, sodiumMalloc -/
+
+def pwhashOut (b0 b1 b2 b3 : Bool) : Int × St :=
+  let r := hashOut b0 b1 b2 b3 0 []
+  (if r.1 then 0 else -1, r.2)
+
+theorem pwhash_eq (ok : Nat → Bool) :
+    pwhash ok {} = pwhashOut (ok 0) (ok 1) (ok 2) (ok 3) := by
+  simp [pwhashOut, pwhash, argon2Hash_eq, bind, pure, StateT.bind, StateT.pure]
+
+theorem pwhashOut_good : ∀ b0 b1 b2 b3 : Bool,
+    Good (pwhashOut b0 b1 b2 b3).1 (pwhashOut b0 b1 b2 b3).2.evs.reverse := by
+  decide
+
+theorem pwhashOut_rc : ∀ b0 b1 b2 b3 : Bool,
+    decide ((pwhashOut b0 b1 b2 b3).1 = 0) = (b0 && b1 && b2 && b3) := by
+  decide
+
+def needsRehashOut (b0 : Bool) (res : Int) : Int × St :=
+  if b0 then (res, ⟨1, [.release .calloc 0, .alloc .calloc 0]⟩) else (-1, ⟨1, [.failed .calloc 0]⟩)
+
+theorem needsRehash_eq (ok : Nat → Bool) (res : Int) :
+    needsRehash ok res {} = needsRehashOut (ok 0) res := by
+  cases h0 : ok 0 <;>
+    simp [needsRehashOut, needsRehash, request, release, bind, pure, StateT.bind, StateT.pure, h0]
+
+theorem needsRehashOut_good (b0 : Bool) (res : Int) :
+    Good (needsRehashOut b0 res).1 (needsRehashOut b0 res).2.evs.reverse := by
+  cases b0 <;> simp [Good, needsRehashOut, anyFailed, live, badRelease]
+
+def scryptOut (b0 m : Bool) : Int × St :=
+  if b0 then (if m then 0 else -1, ⟨1, [.release .mmap 0, .alloc .mmap 0]⟩) else (-1, ⟨1, [.failed .mmap 0]⟩)
+
+theorem scrypt_eq (ok : Nat → Bool) (m : Bool) :
+    scrypt ok m {} = scryptOut (ok 0) m := by
+  cases h0 : ok 0 <;>
+    simp [scryptOut, scrypt, request, release, bind, pure, StateT.bind, StateT.pure, h0]
+
+theorem scryptOut_good : ∀ b0 m : Bool,
+    Good (scryptOut b0 m).1 (scryptOut b0 m).2.evs.reverse := by
+  decide
+
+theorem scryptOut_rc : ∀ b0 m : Bool, decide ((scryptOut b0 m).1 = 0) = (b0 && m) := by
+  decide
+
+theorem sodiumMalloc_rc (ok : Nat → Bool) : (run (sodiumMalloc ok)).rc = 0 ↔ ok 0 = true := by
+  cases h0 : ok 0 <;>
+    simp [run, sodiumMalloc, request, bind, pure, StateT.bind, StateT.pure, h0]
+
+/-! ### `run` of each program -/
+
+theorem run_eq (p : M Int) : run p = ⟨(p {}).1, (p {}).2.evs.reverse⟩ := rfl
+
+theorem run_verify_good (ok : Nat → Bool) (d m : Bool) :
+    Good (run (argon2Verify ok d m)).rc (run (argon2Verify ok d m)).evs := by
+  rw [run_eq, argon2Verify_eq]; exact verifyOut_good ..
+
+theorem run_pwhash_good (ok : Nat → Bool) :
+    Good (run (pwhash ok)).rc (run (pwhash ok)).evs := by
+  rw [run_eq, pwhash_eq]; exact pwhashOut_good ..
+
+theorem run_needsRehash_good (ok : Nat → Bool) (res : Int) :
+    Good (run (needsRehash ok res)).rc (run (needsRehash ok res)).evs := by
+  rw [run_eq, needsRehash_eq]; exact needsRehashOut_good ..
+
+theorem run_scrypt_good (ok : Nat → Bool) (m : Bool) :
+    Good (run (scrypt ok m)).rc (run (scrypt ok m)).evs := by
+  rw [run_eq, scrypt_eq]; exact scryptOut_good ..
+
+theorem forall_lt8 (ok : Nat → Bool) :
+    (∀ i, i < 8 → ok i = true) ↔
+      (ok 0 = true ∧ ok 1 = true ∧ ok 2 = true ∧ ok 3 = true ∧ ok 4 = true ∧ ok 5 = true ∧
+        ok 6 = true ∧ ok 7 = true) := by
+  constructor
+  · intro h
+    exact ⟨h 0 (by omega), h 1 (by omega), h 2 (by omega), h 3 (by omega), h 4 (by omega),
+      h 5 (by omega), h 6 (by omega), h 7 (by omega)⟩
+  · rintro ⟨h0, h1, h2, h3, h4, h5, h6, h7⟩ i hi
+    match i, hi with
+    | 0, _ => exact h0
+    | 1, _ => exact h1
+    | 2, _ => exact h2
+    | 3, _ => exact h3
+    | 4, _ => exact h4
+    | 5, _ => exact h5
+    | 6, _ => exact h6
+    | 7, _ => exact h7
+    | n + 8, h => omega
+
+theorem run_pwhash_rc (ok : Nat → Bool) :
+    (run (pwhash ok)).rc = 0 ↔ (ok 0 = true ∧ ok 1 = true ∧ ok 2 = true ∧ ok 3 = true) := by
+  have h := pwhashOut_rc (ok 0) (ok 1) (ok 2) (ok 3)
+  rw [run_eq, pwhash_eq]
+  simpa [Bool.and_assoc] using congrArg (· = true) h
+
+theorem run_verify_rc (ok : Nat → Bool) (d m : Bool) :
+    (run (argon2Verify ok d m)).rc = 0 ↔ (d = true ∧ m = true ∧ ∀ i, i < 8 → ok i = true) := by
+  have h := verifyOut_rc (ok 0) (ok 1) (ok 2) (ok 3) (ok 4) (ok 5) (ok 6) (ok 7) d m
+  rw [run_eq, argon2Verify_eq, forall_lt8]
+  simpa [Bool.and_assoc] using congrArg (· = true) h
+
+theorem run_scrypt_rc (ok : Nat → Bool) (m : Bool) :
+    (run (scrypt ok m)).rc = 0 ↔ (ok 0 = true ∧ m = true) := by
+  have h := scryptOut_rc (ok 0) m
+  rw [run_eq, scrypt_eq]
+  simpa using congrArg (· = true) h
 
 end Sodium.FaultP
